@@ -8,6 +8,7 @@ from pathlib import Path
 from delphin import variable
 from delphin.lnk import Lnk
 from delphin.mrs import CONSTANT_ROLE, EP, MRS, HCons, ICons, MRSSyntaxError
+from delphin.semi import STRING_TYPE, SemIError
 from delphin.util import Lexer
 
 CODEC_INFO = {
@@ -222,8 +223,9 @@ def _decode_rel(lexer, variables, semi):
     lnk = _decode_lnk(lexer)
     arglist, carg = _decode_arglist(lexer, variables)
     argtypes = [variable.type(arg) for arg in arglist]
-    synopsis = semi.find_synopsis(pred, argtypes)
-    args = {d[0]: v for d, v in zip(synopsis, arglist)}
+    synopsis = _find_synopsis(semi, pred, argtypes, carg)
+    roles = [d[0] for d in synopsis if d[0] != CONSTANT_ROLE]
+    args = dict(zip(roles, arglist))
     if carg:
         args[CONSTANT_ROLE] = carg
     return EP(
@@ -240,6 +242,16 @@ def _decode_lnk(lexer):
     if lnk is not None:
         lnk = Lnk(lnk)
     return lnk
+
+
+def _find_synopsis(semi, pred, argtypes, carg):
+    if carg is not None:
+        # the synopsis may list the constant as a role
+        try:
+            return semi.find_synopsis(pred, argtypes + [STRING_TYPE])
+        except SemIError:
+            pass
+    return semi.find_synopsis(pred, argtypes)
 
 
 def _decode_arglist(lexer, variables):
@@ -361,7 +373,7 @@ def _encode_rel(ep, semi, varprops, lnk, delim):
     synopsis = semi.find_synopsis(ep.predicate, roles)
     args = [_encode_variable(ep.args[d.name], varprops)
             for d in synopsis
-            if d.name in ep.args]
+            if d.name in ep.args and d.name != CONSTANT_ROLE]
     if ep.carg is not None:
         args.append('"{}"'.format(_escape(ep.carg)))
     return '{label}:{pred}{lnk}({args})'.format(
